@@ -4195,4 +4195,4 @@ let exempt =
 (** val table_digest : fname **)
 
 let table_digest =
-  X65 :: (X38 :: (X36 :: (X33 :: (X65 :: (X66 :: (X31 :: (X30 :: (X62 :: (X35 :: (X38 :: (X30 :: (X35 :: (X35 :: (X38 :: (X33 :: [])))))))))))))))
+  X33 :: (X33 :: (X62 :: (X62 :: (X61 :: (X66 :: (X66 :: (X38 :: (X61 :: (X32 :: (X63 :: (X64 :: (X37 :: (X63 :: (X33 :: (X61 :: [])))))))))))))))
